@@ -11,7 +11,8 @@ RULE = ("(rulebook, ordering, vendor, old, new_1..new_k): random rulebooks over 
         "%rewrite, undo_redo/permanent/ignore_changes, !ignore) and ordering rulebooks, block-structured vendors "
         "(huawei/cisco/arista/nexus/b4com reverse prefixes and exits), configs instantiating the rules with one row per "
         "(rule,key) (10%: several), chains of 1..3 successive targets; the patch of every step is executed command by command "
-        "on the device specification; non-trivial = the first patch has >=3 commands incl. a nested one; distinct = distinct case")
+        "on the device specification;" + rbgen.SMALL_RULE % (", one-step chains", "") +
+        " non-trivial = the first patch has >=3 commands incl. a nested one; distinct = distinct case")
 TRUSTED_BASE = [
     "Lean 4.33 kernel; axioms per theorem listed (subset of propext, Classical.choice, Quot.sound)",
     "Spec/Device.lean (the device 'holding one line per rule and key') is a SPECIFICATION written for this property; its "
@@ -31,10 +32,22 @@ def setup_worker():
 
 def shards(tier, seed):
     n = 150 if tier == "quick" else 5000
-    return [dict(seed=seed * 1000 + i, n=n) for i in range(16)]
+    out = [dict(seed=seed * 1000 + i, n=n) for i in range(16)]
+    # the small space of rbgen (30 rulebooks x 104 x 104 ordered config pairs), one-step chains: exhaustively in the
+    # thorough tier, a 256th of it (chosen by the seed) in the quick tier
+    if tier == "quick":
+        out += [dict(kind="small", part=(seed * 2 + i) % 512, parts=512) for i in range(2)]
+    else:
+        out += [dict(kind="small", part=i, parts=32) for i in range(32)]
+    return out
 
 
 def gen(desc):
+    if desc.get("kind") == "small":
+        for c in rbgen.small_cases(desc["part"], desc["parts"], vendors=("huawei", "cisco", "arista")):
+            c["targets"] = [c.pop("new")]
+            yield c
+        return
     rng = random.Random(desc["seed"])
     for _ in range(desc["n"]):
         c = rbgen.gen_case(rng)
